@@ -91,12 +91,22 @@ fn hoist_any_ge_0x80(data: &IBytes) -> (r: bool)
     // no contract needed: either spelling is conformant for every content (see string_spelling)
 { data.v.iter().any(|&b| b >= 0x80) }
 
+#[verifier::external_body]
+fn hoist_slice_contains(s: &[u8], b: &u8) -> (r: bool)
+    // trusted: `<[u8]>::contains` is membership
+    ensures r == s@.contains(*b)
+{ s.contains(b) }
+
 // R4: panic!(msg) as a function that must be proved unreachable
 #[verifier::external_body]
 fn verif_panic(msg: &str) -> !
     requires false
 { panic!("{}", msg) }
 
+// the two string forms cannot be confused: whatever was written before, `<` is not `(` (lets ONE loop invariant serve both byte loops)
+proof fn lemma_forms_differ(s: Seq<u8>)
+    ensures s + seq![60u8] != s + seq![40u8]
+{ assert((s + seq![60u8])[s.len() as int] == 60u8); assert((s + seq![40u8])[s.len() as int] == 40u8); }
 proof fn lemma_lits()
     ensures
         lit_bytes("<"@) == seq![60u8], lit_bytes(">"@) == seq![62u8],
@@ -178,6 +188,7 @@ impl PdfString {
 //@@ PdfString::serialize
 }
 
+//@@ const bytes
 //@@ serialize_name
 
 //@@ INCLUDE serial_leaf/readback.rs
